@@ -7,7 +7,7 @@ import os
 import sys
 from typing import Optional
 
-from ..core.repo import (AnalysisError, AnchorMissing, Repo, call_name, calls_in, definitions, dotted,
+from ..core.repo import (AnalysisError, AnchorMissing, Repo, call_name, calls_in, definitions, dotted, func_params,
                          is_const, kwarg, names_in, unparse, walk_no_nested_defs, _set_parents)
 from ..domains.algnf import NotArithmetic, Rat, from_ast
 from ..domains.codec import flatten_if_chain
@@ -210,6 +210,75 @@ def run(check, repo: Repo) -> None:
                    f"skimage.transform.radon_transform:_get_fourier_filter", "skimage.transform.radon_transform:iradon")
     check.extra["reference_source"] = ref_path
     check.assume("the installed scikit-image source is the reference the module claims to port; it is parsed, never imported")
+
+    # ---- R8 the projection angles reach the rotation as given ---------------------------------------------------------------------------------
+    # The reference uses every angle as is (radon at 180° is the MIRROR image of the projection at 0°, not the same row).  Forward taint from the
+    # `theta` parameter through local definitions and one level of module helpers: no step may reduce, fold, clamp or round the angle.
+    REDUCERS = {"remainder", "fmod", "mod", "clamp", "clip", "clamp_", "abs", "absolute", "round", "floor", "ceil", "unique", "sort", "sorted", "flip"}
+
+    def _angle_names(e):
+        """names the expression reads OUTSIDE trigonometric calls (cos θ is a direction cosine, no longer an angle)"""
+        out, stack = set(), [e]
+        while stack:
+            x = stack.pop()
+            if isinstance(x, ast.Call) and (call_name(x) or "").split(".")[-1] in ("cos", "sin", "tan", "exp"):
+                continue
+            if isinstance(x, ast.Name):
+                out.add(x.id)
+            stack += list(ast.iter_child_nodes(x))
+        return out
+
+    def _angle_chain(fn, params, depth=0):
+        tainted, bad, changed = set(params), [], True
+        stmts = [x for x in ast.walk(fn) if isinstance(x, (ast.Assign, ast.AugAssign, ast.AnnAssign, ast.For, ast.Return))]
+        while changed:
+            changed = False
+            for st_ in stmts:
+                val = st_.iter if isinstance(st_, ast.For) else getattr(st_, "value", None)
+                if val is None or not (_angle_names(val) & tainted):
+                    continue
+                tg = [st_.target] if isinstance(st_, (ast.AugAssign, ast.AnnAssign, ast.For)) else (st_.targets if isinstance(st_, ast.Assign) else [])
+                for t_ in tg:
+                    for nm in ([t_.id] if isinstance(t_, ast.Name) else [e.id for e in getattr(t_, "elts", []) if isinstance(e, ast.Name)]):
+                        # a loop index (enumerate's first slot) is not an angle
+                        if isinstance(st_, ast.For) and isinstance(val, ast.Call) and call_name(val) == "enumerate" and isinstance(t_, ast.Tuple) and t_.elts and getattr(t_.elts[0], "id", None) == nm:
+                            continue
+                        if nm not in tainted:
+                            tainted.add(nm)
+                            changed = True
+        for st_ in stmts:
+            val = st_.iter if isinstance(st_, ast.For) else getattr(st_, "value", None)
+            if val is None:
+                continue
+            for x in ast.walk(val):
+                if isinstance(x, ast.BinOp) and isinstance(x.op, ast.Mod) and names_in(x.left) & tainted and not isinstance(x.left, ast.Constant):
+                    bad.append(x)
+                elif isinstance(x, ast.Call):
+                    last = (call_name(x) or "").split(".")[-1]
+                    args_t = any(names_in(a) & tainted for a in list(x.args) + [k.value for k in x.keywords]) or (
+                        isinstance(x.func, ast.Attribute) and names_in(x.func.value) & tainted)
+                    if last in REDUCERS and args_t:
+                        bad.append(x)
+                    elif depth == 0 and isinstance(x.func, ast.Name) and x.func.id in module_defs_ and x.func.id not in ("radon_torch", "iradon_torch", "get_fourier_filter_torch"):
+                        callee = next(n for n in mod.tree.body if isinstance(n, ast.FunctionDef) and n.name == x.func.id)
+                        ps = func_params(callee)
+                        tp = {ps[i] for i, a in enumerate(x.args) if i < len(ps) and names_in(a) & tainted} | {k.arg for k in x.keywords if k.arg and names_in(k.value) & tainted}
+                        if tp:
+                            bad += _angle_chain(callee, tp, depth + 1)[0]
+        return bad, tainted
+
+    module_defs_ = {n.name for n in mod.tree.body if isinstance(n, ast.FunctionDef)}
+    for label_, fn_ in (("radon_torch", rad), ("iradon_torch", irad)):
+        if "theta" not in func_params(fn_):
+            raise AnalysisError(f"{label_}: parameter `theta` not found")
+        bad_, tainted_ = _angle_chain(fn_, {"theta"})
+        trig = [c for c in calls_in(fn_) if (call_name(c) or "").split(".")[-1] in ("cos", "sin", "deg2rad") and any(names_in(a) & tainted_ for a in c.args)]
+        if not trig:
+            raise AnalysisError(f"{label_}: the angles do not reach a trigonometric call — chain not recognised")
+        check.decide(not bad_, "C07-R8", f"{label_}: the projection angles reach the rotation as given (no modular reduction, clamping or rounding on the way)",
+                     f"{len(tainted_)} angle-carrying locals, {len(trig)} trigonometric uses", mod.line(bad_[0] if bad_ else fn_), definite=True,
+                     fail_detail=f"`{unparse(bad_[0])[:70] if bad_ else ''}` changes the angle values before they are used: the reference projects at exactly the requested angles — "
+                                 f"e.g. 180° reduced to 0° replaces the mirrored projection by the unmirrored one")
 
     # the port is compared with the reference function by function: a call to a module-level helper that is not one of the recorded functions (and that the inliner
     # could not dissolve — a decorated / cached helper, for instance) hides part of the computation; then nothing is claimed
